@@ -3,6 +3,7 @@ Payload: {"cases": [{"stmts": [...], "observe": "backward"|"end"|"all"}]}.
 For every case returns the exception class of every statement and observations of all named tensors
 (after every backward/clear/null_grad statement, and at the end)."""
 import gc
+import weakref
 
 from implbase import *  # noqa: F401,F403
 from implbase import emit, exn_class, mg, np, read_payload, reset_global_state
@@ -136,6 +137,17 @@ def call(fn, spell, ops, p, kw):
         return mg.add_sequence(*ops, **kw)
     if fn == "multiply_sequence":
         return mg.multiply_sequence(*ops, **kw)
+    if fn in ("exp", "tanh", "sin", "cos", "arctan", "sqrt_abs1", "log_abs1", "sigmoid"):
+        # float-only functions (used by the bit-identical repetition oracle, never by the exact model)
+        x = ops[0]
+        if fn == "sqrt_abs1":
+            return mg.sqrt(mg.abs(x) + 1.0)
+        if fn == "log_abs1":
+            return mg.log(mg.abs(x) + 1.0)
+        if fn == "sigmoid":
+            from mygrad.nnet.activations import sigmoid
+            return sigmoid(x)
+        return getattr(mg, fn)(x)
     raise ValueError("unknown fn " + fn)
 
 
@@ -167,6 +179,7 @@ def run_case(case):
     reset_global_state()
     env = Env()
     outcomes, observations = [], []
+    dead_refs = {}
     mode = case.get("observe", "backward")
     for i, s in enumerate(case["stmts"]):
         k = s["op"]
@@ -200,6 +213,8 @@ def run_case(case):
                 env.t[s["t"]].null_grad()
             elif k == "del":
                 for n in s["names"]:
+                    if case.get("liveness") and isinstance(env.t.get(n), mg.Tensor):
+                        dead_refs[n] = weakref.ref(env.t[n])
                     env.t.pop(n, None)
             else:
                 raise ValueError(k)
@@ -211,8 +226,61 @@ def run_case(case):
         if mode == "all" or (mode == "backward" and k in ("backward", "clear", "null_grad")):
             observations.append({"after": i + 1, "obs": observe(env)})
     observations.append({"after": len(case["stmts"]), "obs": observe(env)})
+    alive = None
+    if case.get("liveness"):
+        # reference-counting alone (gc is disabled): drop every name the caller does not keep
+        wr = {n: weakref.ref(t) for n, t in env.t.items() if isinstance(t, mg.Tensor)}
+        wr.update(dead_refs)
+        keep = set(case.get("keep", []))
+        for n in list(env.t):
+            if n not in keep:
+                del env.t[n]
+        alive = {n: (r() is not None) for n, r in wr.items()}
     env.t.clear()
-    return {"outcomes": outcomes, "observations": observations}
+    return {"outcomes": outcomes, "observations": observations, "alive": alive}
+
+
+def run_repeat(case):
+    """leaves are created once (float values), the remaining statements are executed `repeat` times;
+    returns for every iteration the raw bytes (hex) of every leaf gradient"""
+    reset_global_state()
+    env = Env()
+    leaves = [s for s in case["stmts"] if s["op"] == "leaf"]
+    rest = [s for s in case["stmts"] if s["op"] != "leaf"]
+    rs = np.random.RandomState(case.get("float_seed", 0))
+    for s in leaves:
+        arr = make_array(s).astype(np.float64)
+        arr = (arr * 0.37 + rs.standard_normal(arr.shape) * 0.1).astype(np.dtype(s.get("dtype", "float64")) if s.get("dtype", "float64").startswith("float") else np.float64)
+        kw = {}
+        if s.get("const") is not None and not str(arr.dtype).startswith("int"):
+            kw["constant"] = s["const"]
+        env.t[s["name"]] = mg.tensor(arr, **kw)
+    leaf_names = [s["name"] for s in leaves]
+    iters, errors = [], []
+    for it in range(case["repeat"]):
+        exc = None
+        for s in rest:
+            k = s["op"]
+            try:
+                if k == "apply":
+                    ops = [env.operand(o) for o in s["args"]]
+                    kw = {}
+                    if s.get("const") is not None:
+                        kw["constant"] = s["const"]
+                    env.t[s["name"]] = call(s["fn"], s.get("spell", "mg"), ops, s.get("params", {}), kw)
+                    del ops
+                elif k == "backward":
+                    env.t[s["t"]].backward()
+                elif k == "clear":
+                    env.t[s["t"]].clear_graph()
+                elif k == "null_grad":
+                    env.t[s["t"]].null_grad()
+            except Exception as e:
+                exc = exn_class(e)
+        errors.append(exc)
+        iters.append({n: (None if env.t[n].grad is None else env.t[n].grad.tobytes().hex() + ":" + str(env.t[n].grad.dtype) + ":" + str(env.t[n].grad.shape)) for n in leaf_names})
+    env.t.clear()
+    return {"iters": iters, "errors": errors}
 
 
 def main():
@@ -221,7 +289,7 @@ def main():
     out = []
     for c in payload["cases"]:
         try:
-            out.append(run_case(c))
+            out.append(run_repeat(c) if c.get("repeat") else run_case(c))
         except Exception:
             import traceback
 
